@@ -14,7 +14,7 @@ RULE = ('tree units: every sequence of short-read decisions (stateless re-execut
         'policies through Request.body and through Ombott.__call__. Non-trivial = at least one read was '
         'answered short or CL != len(data); distinct = distinct (len, CL, buffer, read-size sequence).')
 PYOPT = {'quick': 1, 'thorough': 1}     # one unit of every kind is also served by an interpreter started with -O (assert statements compiled out)
-REQUIRED = ['units_run_under_python_-O', 'multipart_content_type_on_arbitrary_bytes', 'short_read_cases', 'spilled_to_file', 'in_memory', 'early_eof_cases', 'longer_stream_cases',
+REQUIRED = ['units_run_under_python_-O', 'negative_content_length', 'body_of_a_request_copy_compared', 'multipart_content_type_on_arbitrary_bytes', 'short_read_cases', 'spilled_to_file', 'in_memory', 'early_eof_cases', 'longer_stream_cases',
             'wsgi_cases', 'rewind_checked']
 EXHAUSTIVE = {'quick': False, 'thorough': False,
               'quick_note': 'tree units are exhaustive for body<=11, CL<=13, buffer<=5',
@@ -155,6 +155,11 @@ def one_case(ctx, data, cl, buf, policy_desc, mode, rng=None, wit=None):
             b.read(0)
             second = req.body.read()
             ctx.count('rewind_checked')
+            # a copy of the request taken after the body was read presents the same body
+            third = req.copy().body.read()
+            ctx.count('body_of_a_request_copy_compared')
+            if third != got:
+                ctx.violation('body-of-a-request-copy-differs', f'{where}: the copy presents {len(third)} bytes, the request {len(got)}', wit)
             if env['wsgi.input'] is st:
                 ctx.violation('wsgi.input-not-replaced-by-buffered-copy', where, wit)
         else:
@@ -209,8 +214,10 @@ def random_unit(ctx, unit):
         dseed = rng.getrandbits(32)
         import random
         data = _payload(n, random.Random(dseed))
-        clk = rng.choice(['eq', 'eq', 'below', 'above', 'zero', 'none', 'eq'])
-        cl = {'eq': n, 'below': rng.randint(0, n), 'above': n + rng.randint(1, 50), 'zero': 0, 'none': None}[clk]
+        clk = rng.choice(['eq', 'eq', 'below', 'above', 'zero', 'none', 'eq', 'negative'])
+        cl = {'eq': n, 'below': rng.randint(0, n), 'above': n + rng.randint(1, 50), 'zero': 0, 'none': None, 'negative': -rng.choice([1, 2, 5, 64, max(1, n)])}[clk]
+        if clk == 'negative':
+            ctx.count('negative_content_length')     # as little a body as none: nothing may be read
         buf = rng.choice([1, 2, 3, 7, 16, 64, 1000, 4096, 102400, max(1, n - 1), n + 1, max(1, n)])
         if n > 20000 and buf < 16:
             buf = rng.choice([64, 1000, 8192])
